@@ -32,17 +32,26 @@ Start == /\ cfg.st = "new"
 
 CurAction == ActionOf(TableOf(gi), TopState(cfg), Lookahead(input, cfg))
 
-Move(kind) == /\ cfg.st = "run"
-              /\ steps < FuelOf(gi)
-              /\ CurAction.k = kind
-              /\ steps' = steps + 1
-              /\ cfg' = StepCfg(TableOf(gi), input, cfg)
-              /\ UNCHANGED <<gi, input>>
+Ready(kind) == /\ cfg.st = "run"
+               /\ steps < FuelOf(gi)
+               /\ CurAction.k = kind
 
-Shift  == Move("s")
-Reduce == Move("r")
-Accept == Move("a")
-Error  == Move("e")
+Step == /\ steps' = steps + 1
+        /\ cfg' = StepCfg(TableOf(gi), input, cfg)
+        /\ UNCHANGED <<gi, input>>
+
+\* push the lookahead token and the state the table names; advance the cursor
+Shift  == /\ Ready("s")
+          /\ Step
+\* pop |rhs| entries, push the GOTO state of the uncovered state with the new tree
+Reduce == /\ Ready("r")
+          /\ Step
+\* done: the tree on top of the stack is the result
+Accept == /\ Ready("a")
+          /\ Step
+\* done: report code, position, token and the expected set
+Error  == /\ Ready("e")
+          /\ Step
 
 MNext == Start \/ Shift \/ Reduce \/ Accept \/ Error
 
